@@ -1,16 +1,17 @@
 #!/bin/bash
-# usage: eval_mutant.sh <patch> <tier> <check> [<check> ...]
-# applies the patch to /repo, runs the given checks, reverts.  Prints per check: rc and the VIOLATION keys.
+# usage: [EVAL_REPO=/some/worktree] eval_mutant.sh <patch> <tier> <check> [<check> ...]
+# applies the patch to the repository copy (default /repo), runs the given checks against it, reverts.
 patch=$1; tier=$2; shift 2
-cd /repo || exit 3
-if ! git diff --quiet -- EoN; then echo "/repo working tree not clean"; exit 3; fi
+R=${EVAL_REPO:-/repo}
+cd $R || exit 3
+if ! git diff --quiet -- EoN; then echo "$R working tree not clean"; exit 3; fi
 git apply "$patch" || { echo "patch does not apply"; exit 3; }
 cd /verif
 for c in "$@"; do
-  out=$(timeout 1500 /venv/bin/python -m eonmc.runner $c --tier $tier --no-evidence 2>&1)
+  out=$(EON_REPO=$R timeout 1500 /venv/bin/python -m eonmc.runner $c --tier $tier --no-evidence 2>&1)
   rc=$?
   echo "== $c rc=$rc $(echo "$out" | grep -c '^VIOLATION') violations"
   echo "$out" | grep "key=" | cut -c1-260 | head -6
   echo "$out" | grep -E "^(HARNESS|CAP)" | head -3 | cut -c1-300
 done
-git -C /repo checkout -- EoN
+git -C $R checkout -- EoN
